@@ -708,6 +708,83 @@ func c06E2EStreams(c *Ctx) {
 		c06E2ECase(c, "e2e-tag-nonmultiple", "web", []*profile.Profile{sizes()}, []c06E2EReport{{kind: "top", opts: c06E2EOpts("tagfocus", f)}})
 		c06E2ECase(c, "e2e-tag-nonmultiple", "session", []*profile.Profile{sizes()}, []c06E2EReport{{kind: "traces", opts: c06E2EOpts("tagignore", f), before: []string{"top"}}})
 	}
+	// -- round 5: helpers on the path.  Profile.NumLabelUnits (unit of a numeric tag = first non-empty unit
+	//    in sample order, else inferred from the key) is no longer taken from the harness: the model
+	//    computes it, and these shapes exercise it: a tag unit-less in an earlier sample and unit-bearing
+	//    later, conflicting units, empty units, alignment / request without units, tags never carrying one
+	us, msu := map[string]string{"latency": "microseconds"}, map[string]string{"latency": "milliseconds"}
+	later := func(k int) *profile.Profile {
+		st := []c06E2EStk{
+			{val: 1, frames: []string{"alpha", "main"}, num: map[string]int64{"latency": 3}},
+			{val: 2, frames: []string{"beta", "main"}, num: map[string]int64{"latency": 5000}, unit: us},
+			{val: 4, frames: []string{"gamma", "main"}, num: map[string]int64{"latency": 7000}, unit: us},
+			{val: 8, frames: []string{"delta", "main"}, num: map[string]int64{"latency": 6, "request": 2048, "alignment": 64, "depth": 5}, unit: msu},
+			{val: 16, frames: []string{"eps", "main"}, num: map[string]int64{"request": 4096, "depth": 7}},
+		}
+		switch k {
+		case 1: // the unit-bearing samples first
+			st[0], st[2] = st[2], st[0]
+		case 2: // conflicting units, milliseconds first
+			st[0], st[3] = st[3], st[0]
+		case 3: // no sample carries a unit for latency
+			st = []c06E2EStk{st[0], st[4], {val: 32, frames: []string{"zeta", "main"}, num: map[string]int64{"latency": 5000}}}
+		}
+		return c06E2EBuild(0, "bin/app", st)
+	}
+	for k := 0; k < 4; k++ {
+		p := later(k)
+		units, _ := p.NumLabelUnits()
+		var ks []string
+		for key := range units {
+			ks = append(ks, key)
+		}
+		sort.Strings(ks)
+		var ut []Term
+		for _, key := range ks {
+			ut = append(ut, L(S(key), S(units[key])))
+		}
+		c.Case("numunits", L(S("numunits"), DumpProfile(p)), L(ut...), true, "op:numunits")
+		for _, f := range []string{"latency=4ms:6ms", "latency=6ms:", "latency=:4ms", "latency=5ms", "4ms:6ms", "latency=5000us", "latency=3:6", "request=2kb:", "request=:2048", "alignment=64b", "depth=5:6", "6ms"} {
+			for _, opt := range []string{"tagfocus", "tagignore"} {
+				c06E2ECase(c, "e2e-unit-of-tag", "cli", []*profile.Profile{later(k)}, []c06E2EReport{{kind: "traces", opts: c06E2EOpts(opt, f)}}, fmt.Sprintf("unit-shape:%d", k))
+			}
+			c06E2ECase(c, "e2e-unit-of-tag", "web", []*profile.Profile{later(k)}, []c06E2EReport{{kind: "top", opts: c06E2EOpts("tagfocus", f)}}, fmt.Sprintf("unit-shape:%d", k))
+		}
+		c06E2ECase(c, "e2e-unit-of-tag", "session", []*profile.Profile{later(k)},
+			[]c06E2EReport{{kind: "proto", opts: c06E2EOpts("tagfocus", "latency=4ms:6ms"), before: []string{"top"}}, {kind: "traces", opts: c06E2EOpts("tagignore", "latency=6ms:")}}, fmt.Sprintf("unit-shape:%d", k))
+	}
+	// -- measurement.Scale on the path: tag values sitting EXACTLY on an inclusive bound given in another
+	//    unit (N*1e9 ns vs N s for every N up to 64, hours, microseconds), single values and ranges
+	ns := map[string]string{"latency": "nanoseconds", "cpu": "microseconds"}
+	var bound []c06E2EStk
+	for n := int64(1); n <= 64; n++ {
+		bound = append(bound, c06E2EStk{val: n, frames: []string{fmt.Sprintf("n%d", n), "main"}, num: map[string]int64{"latency": n * 1000000000, "cpu": n * 1000000}, unit: ns})
+	}
+	bound = append(bound, c06E2EStk{val: 100, frames: []string{"hour", "main"}, num: map[string]int64{"latency": 3600 * 1000000000 * 3}, unit: ns})
+	for _, f := range []string{"latency=15s", "latency=:15s", "latency=16s:31s", "latency=31s:", "latency=58s:63s", "latency=29s", "latency=7s:16s", "latency=15000ms",
+		"latency=3hr", "latency=:3hr", "cpu=15s", "cpu=:31s", "cpu=59s:61s", "latency=62s", "latency=30s:30s", "latency=47s:", "latency=:55s"} {
+		for i, opt := range []string{"tagfocus", "tagignore"} {
+			mode, kind := "cli", "proto"
+			if i == 1 {
+				mode, kind = "web", "top"
+			}
+			c06E2ECase(c, "e2e-exact-bound", mode, []*profile.Profile{c06E2EBuild(0, "bin/app", bound)}, []c06E2EReport{{kind: kind, opts: c06E2EOpts(opt, f)}})
+		}
+	}
+	// -- sparse ids: tagroot / tagleaf number their pseudo locations and functions above the LARGEST id;
+	//    gaps such that len+1 is taken, huge ids, with filters that look at the colliding frames
+	for _, sp := range []int{1, 2, 3} {
+		for _, o := range []map[string]string{c06E2EOpts("focus", "target"), c06E2EOpts("ignore", "^a$"), c06E2EOpts("hide", "target|main"), c06E2EOpts("show_from", "helper|target"),
+			c06E2EOpts("prune_from", "target"), c06E2EOpts("focus", "tenant"), map[string]string{}} {
+			for k, tr := range [][2][]string{{{"tenant"}, nil}, {nil, {"tenant"}}, {{"tenant"}, {"zone"}}} {
+				kind := "proto"
+				if k == 0 {
+					kind = "traces"
+				}
+				c06E2ECase(c, "e2e-sparse-ids", "cli", []*profile.Profile{c06E2ESparse(sp)}, []c06E2EReport{{kind: kind, opts: o, tagroot: tr[0], tagleaf: tr[1]}}, fmt.Sprintf("sparse:%d", sp))
+			}
+		}
+	}
 	// -- random: the profiles and option pools of the core streams through all three entry points
 	kn := c06StackKnobs{Names: c06Names, Files: c06Files, MapFiles: c06Maps, MaxFuncs: 5, MaxLocs: 5, MaxLines: 3,
 		MaxSamples: 4, MaxDepth: 4, Unsym: false, Empty: true, Labels: true, NoMap: true}
@@ -764,4 +841,38 @@ func c06E2EStreams(c *Ctx) {
 		}
 		c06E2ECase(c, "e2e-rand", mode, []*profile.Profile{p}, reports)
 	}
+}
+
+// c06E2ESparse: a small profile whose ids have gaps. kind 1: the last location and the last function
+// have id len+1 (the id a dense numbering would hand out next); kind 2: every id multiplied by 1000;
+// kind 3: gaps in the middle and ids in descending order of creation.
+func c06E2ESparse(kind int) *profile.Profile {
+	p := c06E2EBuild(0, "bin/app", []c06E2EStk{
+		{val: 1, frames: []string{"leaf1", "helper", "main"}, lab: map[string]string{"tenant": "a", "zone": "eu"}},
+		{val: 2, frames: []string{"leaf2", "target", "main"}, lab: map[string]string{"tenant": "b", "zone": "us"}},
+		{val: 4, frames: []string{"leaf1", "main"}, lab: map[string]string{"tenant": "a", "zone": "us"}},
+		{val: 8, frames: []string{"target", "helper", "main"}, lab: map[string]string{"tenant": "c", "zone": "eu"}},
+	})
+	// c06E2EBuild creates leaf1, helper, main, leaf2, target in this order: target is last
+	switch kind {
+	case 1:
+		p.Location[len(p.Location)-1].ID++
+		p.Function[len(p.Function)-1].ID++
+	case 2:
+		for _, l := range p.Location {
+			l.ID *= 1000
+		}
+		for _, f := range p.Function {
+			f.ID *= 1000
+		}
+	default:
+		n := uint64(len(p.Location))
+		for i, l := range p.Location {
+			l.ID = 2*(n-uint64(i)) + 1
+		}
+		for i, f := range p.Function {
+			f.ID = 3*(n-uint64(i)) + 2
+		}
+	}
+	return p
 }
